@@ -25,10 +25,14 @@ ASSUMPTIONS = ["no trailing-slash spellings, no symlinks, no '//' at the very st
 WDS = ["", "sub", "sub/deep", "other"]
 
 
+QUICK_BUDGET = {"cases": 4000, "deadline_s": 90, "case_timeout_s": 60, "floors": {"lib_graphs": 6000, "cli_info": 200, "edges_checked": 20000}}
+THOROUGH_FACTOR = 40  # thorough = the same workload with 40x the cases (floors scale along)
+
+
 def budget(tier):
-    if tier == "thorough":
-        return {"cases": 40000, "deadline_s": 600, "case_timeout_s": 120, "floors": {"lib_graphs": 60000, "cli_info": 2000, "edges_checked": 200000}}
-    return {"cases": 4000, "deadline_s": 90, "case_timeout_s": 60, "floors": {"lib_graphs": 6000, "cli_info": 200, "edges_checked": 20000}}
+    from ..core import scaled_budget
+
+    return scaled_budget(QUICK_BUDGET, tier, THOROUGH_FACTOR, noscale=())
 
 
 def relpath(frm, to):
